@@ -138,3 +138,76 @@ def r_ledger(ctx, rid="C10.ledger"):
 def run(ctx):
     ctx.guarded("C10.jsonorder", r_jsonorder)
     ctx.guarded("C10.ledger", r_ledger)
+    ctx.guarded("C10.occreset", r_occreset)
+
+
+def child_obj():
+    st = ("enum", "ValidationState", {"is_multi_type_choice": False, "is_multi_group_choice": False, "data_location": OPAQUE,
+                                      "type_group_name_entry": ("None",), "generic_rules": MutList(), "eval_generic_rule": ("None",)})
+    return ("enum", "Self", {"state": st, "errors": MutList(), "validating_value": False})
+
+
+def r_occreset(ctx, rid="C10.occreset"):
+    ctx.rule(rid, "visit_value_member_key_entry (JSON and CBOR): whatever occurrence is in force on entry (the entry's own or one inherited "
+                  "from an enclosing group, state.occurrence), it is cleared (state.occurrence = None) when the entry has consumed its "
+                  "pair(s) and returns Ok — otherwise it leaks onto the next sibling member and the verdict depends on member order "
+                  "(abstract evaluation with scripted key/value visitors)", floor=12)
+    f = ctx.facts
+    for which in ("json", "cbor"):
+        file, ty = vt.VIS[which]
+        for branch in ("repeating", "single"):
+            for own in (None, "ZeroOrMore", "Optional"):
+                for inherited in (None, "ZeroOrMore", "Optional"):
+                    if own is None and inherited is None:
+                        continue
+                    if branch == "repeating" and own == "Optional":
+                        continue
+                    key = "%s|%s|own=%s|inherited=%s" % (which, branch, own, inherited)
+                    occ = lambda k: ("None",) if k is None else ("Some", ("enum", "Occur::" + k, {}))
+                    state = ("enum", "ValidationState", {"occurrence": occ(inherited), "data_location": OPAQUE, "is_member_key": False,
+                                                         "advance_to_next_entry": False, "is_multi_type_choice": False, "is_multi_group_choice": False,
+                                                         "type_group_name_entry": ("None",), "generic_rules": MutList(), "eval_generic_rule": ("None",),
+                                                         "cddl": OPAQUE, "enabled_features": OPAQUE})
+                    selfo = ("enum", "Self", {"state": state, "errors": MutList(), "map_entry_candidates": ("None",), "object_value": ("None",),
+                                              "active_single_entry_claim": ("None",), "claimed_map_entries": MutList(), "single_entry_claims": MutList(),
+                                              "validated_keys": ("None",), "probing_single_entry_assignment": False,
+                                              "cbor": ("enum", "Value::Map", [MutList([("tuple", [OPAQUE, OPAQUE]), ("tuple", [OPAQUE, OPAQUE])])]),
+                                              "json": OPAQUE})
+                    entry = ("enum", "ValueMemberKeyEntry", {
+                        "occur": ("None",) if own is None else ("Some", ("enum", "Occurrence", {"occur": ("enum", "Occur::" + own, {})})),
+                        "member_key": ("Some", OPAQUE), "entry_type": OPAQUE})
+
+                    def visit_memberkey(run, it, node, recv, selfo=selfo, branch=branch, which=which):
+                        if branch == "repeating":
+                            cands = MutList([0, 1]) if which == "cbor" else MutList([("tuple", [("str", "k0"), OPAQUE]), ("tuple", [("str", "k1"), OPAQUE])])
+                            selfo[2]["map_entry_candidates"] = ("Some", cands)
+                        else:
+                            selfo[2]["object_value"] = ("Some", OPAQUE)
+                        return ("Ok", ("tuple", []))
+
+                    def mkchild(run, it, node, a):
+                        return child_obj()
+                    scripts = {"visit_memberkey": visit_memberkey, "visit_type": lambda r, it, node, recv: ("Ok", ("tuple", [])),
+                               "new_with_recursion_state": lambda r, it, node, recv: child_obj(),
+                               "CBORValidator::new": mkchild, "JSONValidator::new": mkchild, "new": mkchild,
+                               "validate_repeating_member_count": lambda r, it, node, recv: ("tuple", []),
+                               "repeating_member_upper_bound": lambda r, it, node, a: ("None",)}
+                    run = vt.ObjRun(f, file, ty, inline={"visit_occurrence"}, scripts=scripts)
+                    # visit_occurrence lives in the Visitor impl
+                    for fi2 in f.fns(file):
+                        if fi2.impl_self == ty and fi2.name == "visit_occurrence":
+                            run.methods.setdefault("visit_occurrence", []).append(fi2)
+                        if fi2.impl_self == ty and fi2.name == "visit_value_member_key_entry":
+                            run.methods.setdefault("visit_value_member_key_entry", []).append(fi2)
+                    try:
+                        v = run.call("visit_value_member_key_entry", selfo, {"entry": entry})
+                    except absint.Unknown as e:
+                        ctx.incomplete_msg(rid, "%s: %s" % (key, e))
+                        continue
+                    fi = run.fn("visit_value_member_key_entry")
+                    after = state[2]["occurrence"]
+                    ctx.site(rid, key, file, fi.line, {"result": repr(v)[:30], "occurrence_after": repr(after)[:50]})
+                    if isinstance(v, tuple) and v[0] == "Ok" and after != ("None",):
+                        ctx.violation(rid, key, file, fi.line,
+                                      "%s visit_value_member_key_entry (%s member, own occurrence %s, inherited %s) returns Ok with state.occurrence = %s: "
+                                      "the occurrence applies to the next sibling member as well" % (which, branch, own, inherited, repr(after)[:60]))
